@@ -147,9 +147,16 @@ func oracleDist(c *Case) CaseResult {
 		parts[i] = append(parts[i], s)
 	}
 	opts := engine.Opts{EngineOpts: promOpts(cfg)}
+	ropts := opts
+	if c.ID%3 == 2 {
+		// remote engines configured with another lookback than the query's: they must use the query's
+		rcfg := cfg
+		rcfg.Lookback = otherLookback(c)
+		ropts = engine.Opts{EngineOpts: promOpts(rcfg)}
+	}
 	var remotes []api.RemoteEngine
 	for _, p := range parts {
-		remotes = append(remotes, engine.NewLocalEngine(opts, NewStore(p)))
+		remotes = append(remotes, engine.NewLocalEngine(ropts, NewStore(p)))
 	}
 	dist := engine.NewDistributedEngine(opts, api.NewStaticEndpoints(remotes))
 	got, _ := runQuery(dist, NewStore(c.Data), cfg, c.Query, c.Window)
